@@ -1,5 +1,5 @@
 CFG = dict(
-    theorems=["C17.global_fires_iff_engine", "C17.global_fires_iff_partial", "C17.engine_eq_sql_of_safe", "C17.global_fires_iff_fails",
+    theorems=["C17.count_trigger_is_counting_window", "C17.global_fires_iff_engine", "C17.global_fires_iff_partial", "C17.engine_eq_sql_of_safe", "C17.global_fires_iff_fails",
               "C17.global_result_exact", "C17.global_restart_state", "C17.global_restart_empty",
               "C17.global_group_isolation_partial", "C17.keysInj_encGlobal", "C17.global_group_isolation", "C17.global_fires_and_result_global",
               "C17.trigger_binding_same_call", "C17.trigger_binding_sound", "C17.global_trace_partial",
